@@ -98,6 +98,19 @@ func ChildMain() int {
 		fx = harvest(seed)
 	}
 	for t := 0; t < trials; t++ {
+		// a leg that has already found three deadlocks has made its point (each costs a minute of watchdog time)
+		l.mu.Lock()
+		dl := 0
+		for _, v := range l.rep.Violations {
+			if strings.HasPrefix(v.Sig, "deadlock:") {
+				dl++
+			}
+		}
+		l.mu.Unlock()
+		if dl >= 3 {
+			l.count("trials_skipped_after_three_deadlocks", int64(trials-t))
+			break
+		}
 		sc := NewSched(seed*1000003+uint64(t), aggro)
 		sc.Install()
 		// progress marker for the parent (which trial was running when a crash happened)
